@@ -47,6 +47,8 @@ func runC12(c *core.Ctx) {
 	ruleRemovalKeys(c)
 	c.Doc("C12.no-panic", "no explicit panic on the message-receiving path", 1)
 	ruleNoPanicInReceive(c)
+	c.Doc("C12.negative-length", "no wire integer that went through a signed type sizes an allocation without a lower-bound check (the panic kills the server for everyone)", 10)
+	wireIntegerSinks(c, newDecoderSet(c), "C12.negative-length", "C12.negative-length", true)
 	c.Doc("C12.locks", "bus/**: every mutex released on every path (a leaked lock wedges the object/service for every client); no blocking channel operation while a mutex is held", 30)
 	ruleBusLocks(c, lc)
 }
